@@ -1,8 +1,19 @@
 """Registry entry, manifest texts for C04."""
 
 ENTRY = {'parts': [{'scenario': 'scenarios.s_pool', 'chunk': 6}],
-         'quick': {'runs': 2500, 'budget': 60}, 'thorough': {'runs': 150000, 'budget': 1200}}
+         'quick': {'runs': 2500, 'budget': 55}, 'thorough': {'runs': 150000, 'budget': 1200}}
 
-TEXT = {'level': 'TODO', 'ref': 'DESIGN.md 5 (C04), 4 (S-POOL)', 'note': 'TODO'}
-
-ENABLED = False
+TEXT = {'level': 'Seeded search over crash points x statuses x detection orders: 1-4 workers, jobs of every kind '
+          '(apply, map, starmap, imap, imap_unordered), a worker dies at a generated tick inside an item '
+          "(SIGKILL, SIGSEGV, catchable signals, os._exit with any status, also inside the task's own except "
+          'block); supervisor tick, result handler and death are ordered by the scheduler. Oracle: the job '
+          'whose program was executing in the dead pid ends WorkerLostError naming the exit status, no job '
+          'without a dead unfinished owner does, resolution is in (T, T + one period] after detection, the '
+          'pool is back at size, every handle kind reports the loss (no waiting forever: deadlock detector + '
+          'liveness bound).',
+ 'note': 'Trusted: the simulated kernel (simos) models Linux semaphores, pipes, poll, process table, signals '
+         'and wait statuses faithfully (stub conformance: selftest/conformance.py); BaseProcess._bootstrap '
+         'is replaced by a replica of its exit-code mapping (checked by C19); start method is spawn-like '
+         '(pickled copy). Workers die uncatchably only inside task code or between jobs; pipes do not lose '
+         'bytes. Sampling, not proof.',
+ 'ref': 'DESIGN.md 5 (C04), 3, 4 (S-POOL)'}
